@@ -1,6 +1,10 @@
 package crlrepository
 
 import (
+	"go.uber.org/zap"
+
+	"github.com/gr33nbl00d/caddy-revocation-validator/crl/crlstore"
+	"github.com/gr33nbl00d/caddy-revocation-validator/zz_verif/verifrt"
 	"crypto/x509"
 	"math/big"
 
@@ -67,4 +71,19 @@ func (R *Repository) VerifConsistent() (bool, string) {
 		}
 	}
 	return true, ""
+}
+
+// VerifInstallRepoConstructor: from now on NewCRLRepository (called by the real Provision) yields the
+// real repository with the modelled serializer and reader (see newRepo).
+func VerifInstallRepoConstructor() {
+	const name = modRoot + "/crl/crlrepository.NewCRLRepository"
+	var hook func(l *zap.Logger, cfg *config.CRLConfig, t crlstore.StoreType) (error, *Repository)
+	hook = func(l *zap.Logger, cfg *config.CRLConfig, t crlstore.StoreType) (error, *Repository) {
+		verifrt.ClearOverride(name)
+		w := &world{cfg: cfg, disk: t == crlstore.LevelDB}
+		r := w.newRepo()
+		verifrt.Override(name, hook)
+		return nil, r
+	}
+	verifrt.Override(name, hook)
 }
